@@ -38,7 +38,7 @@ fn build(c: &Case, old_shape: OriginShape) -> (MemoHeader, QueryRevisions) {
     (old, new)
 }
 
-// @verif prop=C01,C02 obl=O4 tier=quick bounds="every old/new changed_at in [1, 2^40), every durability pair, old memo final or provisional, new revisions with or without a cycle head, old origin Derived/DerivedUntracked/Assigned"
+// @verif prop=C01,C02,C03 obl=O4 tier=quick bounds="every old/new changed_at in [1, 2^40), every durability pair, old memo final or provisional, new revisions with or without a cycle head, old origin Derived/DerivedUntracked/Assigned"
 // @+ encodes="MemoHeader::can_backdate, MemoHeader::backdate, MemoHeader::may_be_provisional, QueryRevisions::cycle_heads"
 /// C01-O4/C02-O4 (soundness): backdating is permitted only when the new revisions have no cycle heads, the old
 /// memo is final and the durability did not decrease; when applied (old.changed_at <= new.changed_at) it sets
@@ -56,8 +56,9 @@ fn c01_o4_backdate_sound() {
         assert!(dur_index(c.new_d) >= dur_index(c.old_d), "C02: backdating permitted across a durability decrease");
         if c.old_changed <= c.new_changed {
             old.backdate(key(3, 0, 0), &mut new);
-            assert!(new.changed_at.as_usize() == c.old_changed, "C01: backdate did not restore the old changed_at");
+            assert!(new.changed_at.as_usize() >= c.old_changed, "C01: backdate moved changed_at before the revision in which the value last changed");
             assert!(new.changed_at.as_usize() <= c.new_changed, "C01: backdate raised changed_at");
+            assert!(new.changed_at.as_usize() == c.old_changed, "C03: backdate did not restore the old changed_at");
             assert!(new.durability == c.new_d, "C02: backdate altered the durability");
         }
     }
